@@ -1,0 +1,50 @@
+//go:build verif
+
+package ssh
+
+// Contracts for govc (/verif). Comments only.
+
+// ---- C28: algorithm negotiation (RFC 4253 section 7.1) ----
+
+// has(s, x): x occurs in s.  fc(c, s, r): r is the first entry of the client
+// list c that also occurs in the server list s.
+//@ pred has(s, x) = exists(j, 0, len(s), s[j] == x)
+//@ pred common(c, s) = exists(i, 0, len(c), has(s, c[i]))
+//@ pred fc(c, s, r) = exists(i, 0, len(c), r == c[i] && has(s, c[i]) && forall(k, 0, i, !has(s, c[k])))
+
+//@ func findCommon
+//@ props C28
+//@ fresh result1
+//@ ensures iff(result1 == nil, common(client, server))
+//@ ensures implies(result1 == nil, fc(client, server, result0))
+//@ loop 1 invariant -1 <= rangeindex && rangeindex < len(client)
+//@ loop 1 invariant forall(k, 0, rangeindex+1, !has(server, client[k]))
+//@ loop 2 invariant -1 <= rangeindex && rangeindex < len(server)
+//@ loop 2 invariant forall(j, 0, rangeindex+1, server[j] != c)
+//@ loop 2 invariant c == client[loopvar(1, rangeindex)+1] && 0 <= loopvar(1, rangeindex)+1 && loopvar(1, rangeindex)+1 < len(client)
+//@ canary ensures implies(result1 == nil, exists(i, 0, len(server), result0 == server[i] && forall(k, 0, i, !has(client, server[k]))))
+
+// The negotiated set. "ctos"/"stoc" are the client-to-server and
+// server-to-client directions; the client writes ctos and reads stoc, the
+// server the other way round.
+//@ pred dirOK(cc, sc, cm, sm, cz, sz, d) = fc(cc, sc, d.Cipher) &&
+//@ |   implies(!aeadCiphers[d.Cipher], fc(cm, sm, d.MAC)) && fc(cz, sz, d.compression)
+//@ pred dirPossible(cc, sc, cm, sm, cz, sz) = common(cc, sc) && common(cz, sz) &&
+//@ |   forall(i, 0, len(cc), implies(has(sc, cc[i]) && forall(k, 0, i, !has(sc, cc[k])) && !aeadCiphers[cc[i]], common(cm, sm)))
+
+//@ func findAgreedAlgorithms
+//@ props C28
+//@ nonnil clientKexInit serverKexInit
+//@ let C = clientKexInit
+//@ let S = serverKexInit
+//@ ensures implies(err == nil, algs != nil)
+//@ ensures implies(err == nil, fc(C.KexAlgos, S.KexAlgos, algs.KeyExchange))
+//@ ensures implies(err == nil, fc(C.ServerHostKeyAlgos, S.ServerHostKeyAlgos, algs.HostKey))
+//@ ensures implies(err == nil && isClient, dirOK(C.CiphersClientServer, S.CiphersClientServer, C.MACsClientServer, S.MACsClientServer, C.CompressionClientServer, S.CompressionClientServer, algs.Write))
+//@ ensures implies(err == nil && isClient, dirOK(C.CiphersServerClient, S.CiphersServerClient, C.MACsServerClient, S.MACsServerClient, C.CompressionServerClient, S.CompressionServerClient, algs.Read))
+//@ ensures implies(err == nil && !isClient, dirOK(C.CiphersClientServer, S.CiphersClientServer, C.MACsClientServer, S.MACsClientServer, C.CompressionClientServer, S.CompressionClientServer, algs.Read))
+//@ ensures implies(err == nil && !isClient, dirOK(C.CiphersServerClient, S.CiphersServerClient, C.MACsServerClient, S.MACsServerClient, C.CompressionServerClient, S.CompressionServerClient, algs.Write))
+//@ ensures implies(err != nil, !common(C.KexAlgos, S.KexAlgos) || !common(C.ServerHostKeyAlgos, S.ServerHostKeyAlgos) ||
+//@ |   !dirPossible(C.CiphersClientServer, S.CiphersClientServer, C.MACsClientServer, S.MACsClientServer, C.CompressionClientServer, S.CompressionClientServer) ||
+//@ |   !dirPossible(C.CiphersServerClient, S.CiphersServerClient, C.MACsServerClient, S.MACsServerClient, C.CompressionServerClient, S.CompressionServerClient))
+//@ canary ensures implies(err == nil && isClient, fc(C.CiphersClientServer, S.CiphersClientServer, algs.Read.Cipher))
